@@ -116,7 +116,7 @@ PROPS = {
         level_text="Seeded exploration of sequences of 1-6 parallel regions with changing thread counts: do_all over vector / counting / list / set / forward_list / InsertBag (local iterators) / nested rows, "
                    "chunk sizes 1, 3, 32, 4096, stealing on/off, on_each, raw ThreadPool::run with barrier, sleeping and fast-mode wake-up, sizes 0..4100, on synthetic 1-4 socket machines. "
                    "Oracles: per-element counters (exactly once, HB-checked so concurrent double execution is also a race), started == finished == expected at return (join), "
-                   "tid set and tid->thread mapping of on_each, no straggler from an earlier region (counters reset per region).",
+                   "tid set and tid->thread mapping of on_each, no straggler from an earlier region (counters reset per region). Added later: 15 % of the runs reserve a pool thread with ThreadPool::runDedicated first (requests above the usable count must be clamped; oracle c03.active-threads); plain-access decision points inside the regions.",
         level_note="Sampling over seeds; steal paths are reached through chunk_size<1>/steal with uneven thread progress (stalls, PCT priorities).",
         **tiers(8000, 120, 200000, 1500)),
     "C04": dict(
@@ -125,7 +125,7 @@ PROPS = {
         design_ref="3.4",
         level_text="Seeded exploration of the ring detector (the system instance) and the tree detector (instantiated by the harness) driven by a synthetic work-moving model "
                    "(mailboxes, late transfers to threads that already reported idle, batches) over 1-4 consecutive loops with changing thread counts. Oracles: outstanding-work ledger at every "
-                   "observation of globalTermination() (safety), announcement within 2*(3n+6) fair idle rounds after the last unit is consumed (bounded liveness), re-arming/reuse.",
+                   "observation of globalTermination() (safety), announcement within 2*(3n+6) fair idle rounds after the last unit is consumed (bounded liveness), re-arming/reuse. Added later: 35 % of the loops (never the last) are abandoned at a drawn point, as the executor does on break, and the same detector is re-armed for the next loop.",
         level_note="Sampling over seeds; the liveness bound is counted in fair rounds (every thread reported idle once), which no schedule can inflate.",
         **tiers(30000, 150, 800000, 1800)),
     "C05": dict(
@@ -154,7 +154,7 @@ PROPS = {
         level_text="Seeded exploration of generated update multisets with generated update->thread assignments applied inside on_each to GAccumulator (+=, -=, update; int/long/unsigned/double), "
                    "GReduceMax/Min (incl. all-negative int/double/float), logical and/or, make_reducible with a user merge and a move-only type, reset; concurrent fills of InsertBag and PerThread "
                    "vector/deque/list/set; DynamicBitSet concurrent set/reset plus range reset at generated alignments, bitwise ops, count, getOffsets; atomicMin/Max/Add/Subtract; concurrent union-find. "
-                   "Oracle: sequential fold / std:: containers / serial union-find.",
+                   "Oracle: sequential fold / std:: containers / serial union-find. Added later: swap / move construction of filled bags followed by new reducers and loops (the two-bag idiom), vectors of reducers that grow.",
         level_note="Sampling over seeds; the value-only parts (identities, masks) ride along on the simulated concurrent runs, the schedule-dependent parts (CAS loops under spurious weak-CAS failure, concurrent merges) are what the simulator adds.",
         **tiers(20000, 120, 500000, 1500)),
     "C16": dict(
@@ -163,7 +163,7 @@ PROPS = {
         design_ref="3.16",
         level_text="Seeded exploration of ParallelSTL sort, partition, count_if, find_if, accumulate, map_reduce, partial_sum, destroy on generated sequences (empty, around the 1024 cut-off, "
                    "non-multiples of the block size, all-equal/sorted/reversed/few-keys, all-true/all-false predicates) on 1-16 threads; oracle: the std:: counterpart, partition-point validity, permutation checks. "
-                   "The simulator explores which thread exhausts which side first in partition's block claiming and everything for_each/do_all do underneath.",
+                   "The simulator explores which thread exhausts which side first in partition's block claiming and everything for_each/do_all do underneath. Added later: the arrays are under the happens-before check; plain-access decision points reach the algorithms' shared helper state; 40 % of the partition runs use 4-14 blocks on >= 3 threads.",
         level_note="Sampling over seeds; element accesses are plain (no decision points), so > 1024 elements stay cheap.",
         **tiers(24000, 150, 600000, 1800)),
     "C09": dict(
@@ -177,7 +177,7 @@ PROPS = {
         level_text="Seeded exploration of alloc/free histories spread over simulated threads (frees on other threads included) against FixedSizeHeap (17 size classes), Pow_2_BlockHeap "
                    "(class boundaries 2^i +-1, malloc backup beyond 64KB), VariableSizeHeap (both allocate overloads), the page pool (pre-alloc, remote frees), PerThreadStorage creation/destruction "
                    "from several threads (1B..1MB, constructed free-list/'change' scenario), largeMalloc*/LargeArray, and the per-iteration allocator inside for_each (pia instantiations of the loop harness). "
-                   "Oracle: shadow interval map (non-null, size, alignment, disjoint from all live blocks) + canaries verified at free and at the end. Faults: huge-page refusal, spurious weak-CAS failure.",
+                   "Oracle: shadow interval map (non-null, size, alignment, disjoint from all live blocks) + canaries verified at free and at the end. Faults: huge-page refusal, spurious weak-CAS failure. Added later: random create/destroy/move histories of per-thread-storage objects over 13 sizes issued by changing threads (satisfiability model only decides which requests may be issued); plain-access decision points inside the allocator calls.",
         level_note="Sampling over seeds. Requests stay inside the 2MB per-thread-storage capacity model (exceeding it is a designed GALOIS_DIE). Page alignment is checked against the simulated mmap, which places 2MB-multiples on 2MB boundaries.",
         **tiers(16000, 120, 400000, 1500)),
     "C10": dict(
@@ -187,7 +187,7 @@ PROPS = {
         level_text="Seeded exploration of for_each over generated mutation items (addEdge with duplicate check, addMultiEdge, removeEdge, findEdge/findEdgeSortedByDst, node/edge data updates, "
                    "sortEdgesByDst, removeNode, addNode) on overlapping node sets for five MorphGraph flavours (directed, in/out, undirected, sorted neighbours, no-lockable with harness locks). "
                    "Oracle: serial replay of the commit log on a fresh graph of the same type -> identical structural dump and identical observed results; structural invariants "
-                   "(reverse entries, shared data cell, no dangling edge, sortedness, iteration exactly once).",
+                   "(reverse entries, shared data cell, no dangling edge, sortedness, iteration exactly once). Added later: lookups and an out_edges() neighbourhood operator that rely on the library's own acquisition (no harness pre-locking), clustered around node removals; plain-access decision points.",
         level_note="Sampling over seeds. Items are cautious at operator level (all touched nodes acquired first); removed nodes are never re-added.",
         **tiers(20000, 120, 400000, 1500)),
     "C11": dict(
@@ -197,7 +197,7 @@ PROPS = {
         level_text="Seeded exploration of the parallel graph builders: generated graphs (empty, isolated nodes, self loops, parallel edges, hubs, last node with/without edges) written by the harness's "
                    "own .gr writer (v1/v2, void/uint32/uint64 data) and loaded with 1-16 threads into LC_CSR (3 variants + array constructor), LC_CSR_CSC (constructIncomingEdges), LC_Linear, LC_InlineEdge, "
                    "LC_Morph; then findEdge, sortAllEdgesByDst, findEdgeSortedByDst, sortEdgesByEdgeData, transpose, per-thread local ranges. Oracle: exact comparison with the generator's edge list "
-                   "(file order for CSR layouts, unique edge ids for layouts with free node order), views are permutations grouped correctly, local ranges partition [0,n).",
+                   "(file order for CSR layouts, unique edge ids for layouts with free node order), views are permutations grouped correctly, local ranges partition [0,n). Added later: every mapping the graph code makes is under the happens-before check (unordered conflicting plain accesses, mixed atomic/plain races are reported whatever the result).",
         level_note="Sampling over seeds. Sequential lookups ride along as oracle reads; what the simulator adds are the interleavings of the per-thread construction, the fromFileInterleaved condvar hand-shake and the atomic slot claiming in transpose / in-edge construction.",
         **tiers(12000, 150, 300000, 1800)),
     "C12": dict(
@@ -254,7 +254,7 @@ PROPS = {
         level_text="The real CuSP partitioner runs on 1-4 simulated hosts x 1-3 threads for policies OEC, IEC (transpose input), HOVC, CVC, CVC column-flip, Ginger, Fennel, Sugar, OEC-symmetric and CVC with CSC output "
                    "on generated graphs (isolated nodes, hubs, self loops, parallel edges, fewer nodes than hosts). Every host dumps nodes, id maps, flags, edges and mirror lists into a side channel; the parent checks: "
                    "each input edge exactly once in the union, exactly one master per node and agreement of getHostID, L2G/G2L inverse, masters before mirrors, a proxy for every endpoint of a local edge, mirror lists equal to the "
-                   "non-owned proxies grouped by owner, OEC/IEC promises. The simulator varies the arrival order of edge/metadata messages, host and communication-thread stalls, threads per host.",
+                   "non-owned proxies grouped by owner, OEC/IEC promises. The simulator varies the arrival order of edge/metadata messages, host and communication-thread stalls, threads per host. Added later: the partitioner's own options (three master distributions with node/edge weights, cuspAsync, cuspStateRounds) are drawn per run.",
         level_note="Sampling over seeds; MPI is a stub that keeps the standard's guarantees. Master/mirror list agreement between peers is exercised through the Gluon exchange in the C18 check.",
         **tiers(800, 170, 20000, 2400, run_timeout_s=300)),
     "C18": dict(
